@@ -93,6 +93,7 @@ class Model:
         self.stride = 1
         self.since = 0
         self.pending_labels = []
+        self.pending_share = []    # (deep copy, original) pairs whose topology atoms are compared at the next verification
 
     def new_cells(self, values, src=None):
         ids = []
@@ -229,7 +230,12 @@ def execute(trace, ctx):
                     top = M.new_top() if kind == "deep_copy" else o["top"]
                     if kind == "deep_copy" and o["top"] in M.top_resid:
                         M.top_resid[top] = list(M.top_resid[o["top"]])
-                        if any(a is b for a, b in zip(new.molecule_top, o["obj"].molecule_top)):
+                        if M.stride > 1:
+                            # the copy is not looked at before the next comparison (a copy that duplicates only when first
+                            # used would otherwise be woken up by the harness itself)
+                            M.pending_share.append((new, o["obj"]))
+                            ctx.probe("copy_not_looked_at_until_later")
+                        elif any(a is b for a, b in zip(new.molecule_top, o["obj"].molecule_top)):
                             ctx.violate(P, "isolation", "a deep copy shares topology atom objects with the original", key="deep_copy:top")
                 M.track(o["kind"], new, cells, top=top, note=kind)
                 ctx.op(kind, o["kind"])
@@ -651,6 +657,10 @@ def verify(ctx, M, touched, expected, label, force=False):
                 actual[c] = v
         if not ok:
             return False
+    for new_, orig_ in M.pending_share:
+        if any(a is b for a, b in zip(new_.molecule_top, orig_.molecule_top)):
+            ctx.violate(P, "isolation", "a deep copy shares topology atom objects with the original", key="deep_copy:top")
+    M.pending_share = []
     # sync the model with what was observed for the predicted cells
     for c in list(M.dirty):
         if c in actual:
